@@ -78,6 +78,10 @@ class TTMLElement:
 
       self.explicit_dur: typing.Optional[Fraction] = None
 
+      # True if the element is a child of a sequential time container that follows a child that never ends
+
+      self.never_begins: bool = False
+
     def process_lang_attribute(self, parent_ctx: TTMLElement.ParsingContext, xml_elem):
       '''Processes the xml:lang attribute, including inheritance from the parent
       '''
@@ -825,6 +829,10 @@ class ContentElement(TTMLElement):
 
       if parent_ctx.time_container.is_par():
         self.implicit_begin = Fraction(0)
+      elif parent_ctx.implicit_end is None:
+        # the previous child of the sequential time container never ends, so this element never begins
+        self.never_begins = True
+        self.implicit_begin = Fraction(0)
       else:      
         self.implicit_begin = parent_ctx.implicit_end - parent_ctx.desired_begin
       
@@ -859,6 +867,10 @@ class ContentElement(TTMLElement):
         child_element = ContentElement.from_xml(self, child_xml_element)
 
         if child_element is not None:
+
+          if child_element.never_begins:
+            # the element is never active and the container still never ends
+            continue
 
           if issubclass(child_element.ttml_class, SetElement):
             if is_inline_animation_complete:
